@@ -360,6 +360,30 @@ def run(ctx, rep):
                     rep.check(both, "R16.4", "R16.4|emission_independent|%s|%s" % (opt, p.split("::")[-1]),
                               "in %s the error is sent whatever %s() returns (the option only changes the message context)" % (p.split("::")[-1], opt), p,
                               "in %s the StatType::Error is only sent on one outcome of %s(): the option changes the error count" % (p.split("::")[-1], opt))
+    # without a code filter nothing is filtered: every recorded message is displayed (up to the cap) whether or not it
+    # carries an [Exx] code — what is shown must agree with what is counted
+    ep = next((q for q in sorted(f.fns) if q.endswith("err_printer::ErrPrinter::<'a>::print") or q.endswith("err_printer::ErrPrinter::print")), None)
+    if ep is None:
+        ep = next((q for q in sorted(f.fns) if "err_printer::ErrPrinter" in q and q.endswith("::print")), None)
+    if ep:
+        from ..thir import Agg as _Agg2
+        selfp = _Agg2("ErrPrinter", "ErrPrinter", {"error_code_filter": _Agg2("core::option::Option", "None", {}), "max_errors": Sym("CAP")})
+        ev.watch = lambda c: c.endswith("::filter_error_msgs") or c.endswith("::match_error_code") or c.endswith("::minify_filter") or c.endswith("Iterator::filter") \
+            or c.endswith(("Iterator::take", "Iterator>::take", "Iterator::for_each", "Iterator>::for_each"))
+        try:
+            recs_ = [o for o in ev.collect_ifs(ep, [selfp, Sym("MSGS"), Sym("CODES")]) if "call" in o and not o.get("closure") and not any(g in ("false", "not true") for g in o["guard"])]
+            names_ = [o["call"].split("::")[-1] for o in recs_]
+            okp = not any(n_ in ("filter_error_msgs", "match_error_code", "minify_filter", "filter") for n_ in names_) and "for_each" in names_ \
+                and any(o["call"].endswith(("Iterator::take", "Iterator>::take")) and o["args"][0] == "sym(MSGS)" for o in recs_)
+            det = "calls without a filter: %s" % names_
+        except Unsupported as e:
+            okp, det = False, "cannot evaluate: %s" % e
+        finally:
+            ev.watch = None
+        rep.check(okp, "R16.4", "R16.4|unfiltered_shows_all", "without -w every recorded message is displayed (first max_errors), none is filtered out", ep,
+                  "ErrPrinter::print filters messages although no error-code filter is set (%s): messages without a code are counted but not shown" % det)
+    else:
+        rep.missing("R16.4", "ErrPrinter::print")
     # the cap: stop flag is stored when err_count == max (documented early stop), only in update()
     upd = CTRL + "update"
     if upd in f.fns:
